@@ -96,10 +96,8 @@ def csv_cases(rep, pa, cases, rng, tier):
                     c = pa.Continuum.from_csv(str(path), discard_invalid_rows=bool(p["discard"]), delimiter=delim)
                 got = proj_units(c)
                 got_anns = list(c.annotators)
-            except ValueError:
-                got_out = "ValueError"
-            except Exception as ex:
-                got_out = type(ex).__name__
+            except Exception:      # rejected, whatever the exception class
+                got_out = "rejected"
             os.unlink(path)
             want = sorted((amap[u[0]], tm(u[1]), tm(u[2]), lmap[u[3]]) for u in p["units"])
             n += 1
